@@ -79,10 +79,17 @@ def check_correlation(ctx, model, df, where, prop='C02'):
     lam = np.linalg.eigvalsh((A + A.T) / 2)
     ctx.check(lam.min() >= -1e-8, 'corr.psd', prop + ':correlation-not-psd', lambda: dict(where, min_eig=float(lam.min())))
     ctx.maxstat('most negative eigenvalue', -lam.min(), where)
+    # two correct Pearson algorithms (pandas' online update vs the two-pass formula) differ by about
+    # eps * mean^2 / (std_i * std_j): negligible except for score columns that are nearly constant (a marginal
+    # fitted on a 1e-9-noisy copy gave scores with std 7.6e-7 and a 5.8e-7 disagreement)
+    sd = np.maximum(Zs.std(axis=0), 1e-300)
+    tol = 2 * EPS32 + 1e-12 / (sd[:, None] * sd[None, :])
     err = np.abs(A - Cref)
-    k = np.unravel_index(int(np.argmax(err)), err.shape)
-    ctx.check(err.max() <= 2 * EPS32, 'corr.recomputed', prop + ':correlation-not-pearson-of-normal-scores',
-              lambda: dict(where, entry=[int(k[0]), int(k[1])], got=A[k], ref=Cref[k]))
+    excess = err - tol
+    k = np.unravel_index(int(np.argmax(excess)), err.shape)
+    ctx.check(excess.max() <= 0, 'corr.recomputed', prop + ':correlation-not-pearson-of-normal-scores',
+              lambda: dict(where, entry=[int(k[0]), int(k[1])], got=A[k], ref=Cref[k], tolerance=float(tol[k]),
+                           score_std=[float(sd[k[0]]), float(sd[k[1]])]))
     ctx.maxstat('|C - C_ref|', err.max(), where)
     # "a numerically singular matrix is regularised": when the recomputed matrix is clearly singular
     # (condition number beyond 1e3/eps, far from the library's own 1/eps threshold) a ridge must be there
@@ -124,7 +131,14 @@ def run_case(spec, ctx):
     # sampling and density evaluation still work on (numerically) singular matrices
     oks, s = ctx.call(model.sample, 50)
     if not oks:
-        ctx.violation('corr.usable', 'C02:sample-' + exc_mech(s), dict(exc_detail(s), **where))
+        from vmon.core import exc_origin
+        origin = exc_origin(s) or ''
+        if origin.startswith(('optimize/', 'univariate/')):
+            # a marginal's own quantile function failed (e.g. the KDE bracket assertion of finding F2 on a
+            # 2-row table): not the correlation matrix's doing, and judged by C03
+            ctx.note('sample failed inside a marginal quantile function (not judged by C02)')
+        else:
+            ctx.violation('corr.usable', 'C02:sample-' + exc_mech(s), dict(exc_detail(s), **where))
     else:
         ctx.check(s.shape == (50, df.shape[1]) and np.isfinite(s.to_numpy(dtype=float)).all(), 'corr.usable',
                   'C02:sample-nonfinite-on-regularised-matrix', lambda: dict(where, shape=list(s.shape)))
